@@ -38,6 +38,7 @@ type scenario struct {
 	Interval string         `json:"rollback_sampling_interval,omitempty"`
 	Unsafe   bool           `json:"unsafe_batch"`
 	Batches  int            `json:"batches"`
+	Phase2   int            `json:"batches_after_wipe_and_reopen,omitempty"`
 	FMerge   int            `json:"force_merge_every"`
 	KV       map[string]any `json:"kvconfig"`
 }
@@ -72,12 +73,11 @@ func stateOf(idx bleve.Index) (*sched.View, error) {
 	return sched.ReadView(idx, ids(), []string{corpus.SeqKey(0)})
 }
 
-func check(idx bleve.Index, seed uint64, k int) string {
+func check(idx bleve.Index, m *corpus.LWW) string {
 	v, err := stateOf(idx)
 	if err != nil {
 		return "read: " + err.Error()
 	}
-	m := corpus.WriterModel(seed, 0, k, nIDs)
 	if d := sched.Diff(v, m, []string{corpus.SeqKey(0)}); d != "" {
 		return d
 	}
@@ -97,8 +97,41 @@ func check(idx bleve.Index, seed uint64, k int) string {
 	return ""
 }
 
+// history of a scenario: batches 1..B are the writer's batches; with a second phase, batch B+1 wipes every
+// document (and still advances seq) and batches B+2.. write again. modelAt(k) replays the first k batches.
+func history(sc scenario) []corpus.Batch {
+	var h []corpus.Batch
+	for k := 1; k <= sc.Batches; k++ {
+		h = append(h, corpus.WriterBatch(sc.Seed, 0, k, nIDs))
+	}
+	if sc.Phase2 > 0 {
+		wipe := corpus.Batch{}
+		for _, id := range ids() {
+			wipe.Ops = append(wipe.Ops, corpus.Op{Kind: "delete", ID: id})
+		}
+		wipe.Ops = append(wipe.Ops, corpus.Op{Kind: "setint", ID: corpus.SeqKey(0), Val: strconv.Itoa(sc.Batches + 1)})
+		h = append(h, wipe)
+		for k := sc.Batches + 2; k <= sc.Batches+1+sc.Phase2; k++ {
+			h = append(h, corpus.WriterBatch(sc.Seed, 0, k, nIDs))
+		}
+	}
+	return h
+}
+
+func modelAt(h []corpus.Batch, k int, extra ...corpus.Batch) *corpus.LWW {
+	m := corpus.NewLWW()
+	for i := 0; i < k && i < len(h); i++ {
+		m.Apply(h[i])
+	}
+	for _, b := range extra {
+		m.Apply(b)
+	}
+	return m
+}
+
 func runScenario(r *ev.Run, dir string, sc scenario) {
 	g := rng.New(sc.Seed)
+	hist := history(sc)
 	base := filepath.Join(dir, fmt.Sprintf("s%d", sc.ID))
 	_ = os.MkdirAll(base, 0o755)
 	defer os.RemoveAll(base)
@@ -119,7 +152,7 @@ func runScenario(r *ev.Run, dir string, sc scenario) {
 	lastPersisted := 0
 	var pmu sync.Mutex
 	for k := 1; k <= sc.Batches; k++ {
-		bb, err := corpus.ToBleve(idx, corpus.WriterBatch(sc.Seed, 0, k, nIDs))
+		bb, err := corpus.ToBleve(idx, hist[k-1])
 		if err != nil {
 			fail("setup-error", nil, "", err.Error())
 			return
@@ -207,47 +240,117 @@ func runScenario(r *ev.Run, dir string, sc scenario) {
 			return
 		}
 	}
+	verifyPoints(r, base, path, sc, hist, points, desc, fail, "")
+	if sc.Phase2 == 0 {
+		return
+	}
+	// phase 2: reopen, wipe everything, close, reopen, write again, close — the points from before the wipe
+	// that are still offered must still restore exactly their own state
+	idxb, err := bleve.Open(path)
+	if err != nil {
+		fail("reopen-error", desc, "", err.Error())
+		return
+	}
+	if err := corpus.ApplyBatch(idxb, hist[sc.Batches]); err != nil {
+		fail("batch-error", desc, "", err.Error())
+		idxb.Close()
+		return
+	}
+	// (unsafe_batch: a clean Close only keeps what the persisted callback has reported)
+	_ = corpus.WaitPersisted(idxb, corpus.Config{IndexType: scorch.Name, OnDisk: true})
+	if err := idxb.Close(); err != nil {
+		fail("close-error", desc, "", err.Error())
+		return
+	}
+	idxb, err = bleve.Open(path)
+	if err != nil {
+		fail("reopen-error", desc, "", err.Error())
+		return
+	}
+	for k := sc.Batches + 1; k < len(hist); k++ {
+		if err := corpus.ApplyBatch(idxb, hist[k]); err != nil {
+			fail("batch-error", desc, "", err.Error())
+			idxb.Close()
+			return
+		}
+	}
+	if d := check(idxb, modelAt(hist, len(hist))); d != "" {
+		fail("state-after-wipe-reopen-write-differs", desc, "", d)
+	}
+	_ = corpus.WaitPersisted(idxb, corpus.Config{IndexType: scorch.Name, OnDisk: true})
+	if err := idxb.Close(); err != nil {
+		fail("close-error", desc, "", err.Error())
+		return
+	}
+	points2, err := scorch.RollbackPoints(store)
+	if err != nil {
+		fail("rollbackpoints-error", desc, "", err.Error())
+		return
+	}
+	var desc2 []string
+	old := 0
+	for _, p := range points2 {
+		desc2 = append(desc2, fmt.Sprintf("%v(seq=%d)", p, seqOf(p)))
+		if seqOf(p) <= sc.Batches {
+			old++
+		}
+	}
+	r.Count("phase2_points_offered", len(points2))
+	r.Count("phase2_points_from_before_the_wipe", old)
+	if len(points2) == 0 || seqOf(points2[0]) != len(hist) {
+		fail("latest-state-not-listed", desc2, "", fmt.Sprintf("after phase 2 the first point must carry seq %d", len(hist)))
+		return
+	}
+	verifyPoints(r, base, path, sc, hist, points2, desc2, fail, "phase2/")
+}
+
+func verifyPoints(r *ev.Run, base, path string, sc scenario, hist []corpus.Batch, points []*scorch.RollbackPoint, desc []string,
+	fail func(class string, points []string, point, detail string), prefix string) {
 	for pi, p := range points {
 		k := seqOf(p)
-		if k < 0 {
-			fail("point-without-valid-internal-values", desc, desc[pi], "seq key unparsable")
+		if k < 0 || k > len(hist) {
+			fail(prefix+"point-without-valid-internal-values", desc, desc[pi], fmt.Sprintf("seq key %d", k))
 			continue
 		}
-		cp := filepath.Join(base, fmt.Sprintf("copy%d", pi))
+		cp := filepath.Join(base, fmt.Sprintf("%scopy%d", strings.ReplaceAll(prefix, "/", "-"), pi))
 		if err := copyDir(path, cp); err != nil {
 			fail("setup-error", desc, desc[pi], err.Error())
 			continue
 		}
 		if err := scorch.Rollback(filepath.Join(cp, "store"), p); err != nil {
-			fail("rollback-error", desc, desc[pi], err.Error())
+			fail(prefix+"rollback-error", desc, desc[pi], err.Error())
 			continue
 		}
 		r.Count("rollbacks", 1)
 		idx2, err := bleve.Open(cp)
 		if err != nil {
-			fail("open-after-rollback-failed", desc, desc[pi], err.Error())
+			fail(prefix+"open-after-rollback-failed", desc, desc[pi], err.Error())
 			continue
 		}
-		if d := check(idx2, sc.Seed, k); d != "" {
-			fail("state-after-rollback-differs", desc, desc[pi], fmt.Sprintf("rolled back to %s: %s", desc[pi], d))
+		if d := check(idx2, modelAt(hist, k)); d != "" {
+			fail(prefix+"state-after-rollback-differs", desc, desc[pi], fmt.Sprintf("rolled back to %s: %s", desc[pi], d))
 			idx2.Close()
 			continue
 		}
-		// the index accepts new writes: continue the writer from k
+		// the index accepts new writes: four fresh batches on top of the restored state
+		var extra []corpus.Batch
 		werr := ""
-		for j := k + 1; j <= k+4; j++ {
-			if err := corpus.ApplyBatch(idx2, corpus.WriterBatch(sc.Seed, 0, j, nIDs)); err != nil {
+		for j := 1; j <= 4; j++ {
+			b := corpus.WriterBatch(sc.Seed^0x5bd1e995, 0, k+j, nIDs)
+			extra = append(extra, b)
+			if err := corpus.ApplyBatch(idx2, b); err != nil {
 				werr = err.Error()
 				break
 			}
 		}
 		if werr != "" {
-			fail("write-after-rollback-failed", desc, desc[pi], werr)
+			fail(prefix+"write-after-rollback-failed", desc, desc[pi], werr)
 			idx2.Close()
 			continue
 		}
-		if d := check(idx2, sc.Seed, k+4); d != "" {
-			fail("state-after-rollback-and-writes-differs", desc, desc[pi], d)
+		want := modelAt(hist, k, extra...)
+		if d := check(idx2, want); d != "" {
+			fail(prefix+"state-after-rollback-and-writes-differs", desc, desc[pi], d)
 			idx2.Close()
 			continue
 		}
@@ -256,14 +359,13 @@ func runScenario(r *ev.Run, dir string, sc scenario) {
 			fail("close-error", desc, desc[pi], err.Error())
 			continue
 		}
-		// reopen once more: still the same, and no point newer than what we wrote
 		idx3, err := bleve.Open(cp)
 		if err != nil {
-			fail("reopen-after-rollback-failed", desc, desc[pi], err.Error())
+			fail(prefix+"reopen-after-rollback-failed", desc, desc[pi], err.Error())
 			continue
 		}
-		if d := check(idx3, sc.Seed, k+4); d != "" {
-			fail("state-after-rollback-reopen-differs", desc, desc[pi], d)
+		if d := check(idx3, want); d != "" {
+			fail(prefix+"state-after-rollback-reopen-differs", desc, desc[pi], d)
 		}
 		idx3.Close()
 		pts2, err := scorch.RollbackPoints(filepath.Join(cp, "store"))
@@ -273,7 +375,7 @@ func runScenario(r *ev.Run, dir string, sc scenario) {
 		}
 		for _, q := range pts2 {
 			if s := seqOf(q); s > k+4 {
-				fail("later-batches-survived-rollback", desc, desc[pi], fmt.Sprintf("after rollback to seq %d and 4 more batches a point with seq %d is listed", k, s))
+				fail(prefix+"later-batches-survived-rollback", desc, desc[pi], fmt.Sprintf("after rollback to seq %d and 4 more batches a point with seq %d is listed", k, s))
 			}
 		}
 		_ = os.RemoveAll(cp)
@@ -287,8 +389,8 @@ func run(r *ev.Run) {
 		"the identity of a rollback point is the seq internal key stored with it",
 		"with a positive sampling interval only the content checks apply (retention is time based)",
 	}
-	n := r.Scale(64, 800)
-	r.MinDistinct = r.Scale(10, 100)
+	n := r.Scale(160, 1600)
+	r.MinDistinct = r.Scale(40, 400)
 	dir := r.TempDir()
 	g := r.Rng("scenarios")
 	var scs []scenario
@@ -308,6 +410,9 @@ func run(r *ev.Run) {
 		}
 		if sc.Unsafe {
 			kv["unsafe_batch"] = true
+		}
+		if keep > 1 && i%2 == 1 && sc.Interval == "" {
+			sc.Phase2 = g.Range(2, 5)
 		}
 		sc.KV = kv
 		scs = append(scs, sc)
